@@ -34,6 +34,13 @@ func (d *Doc) Features() []string {
 				lists++
 			}
 		}
+		if isTag(n, "div", "section", "article", "main", "nav", "aside", "header", "footer") {
+			for _, k := range n.Kids {
+				if k.IsText() || isTag(k, "span", "b") || (k.Tag == "a" && len(k.Kids) == 1 && k.Kids[0].IsText()) {
+					set["bare-text-in-wrapper"] = true
+				}
+			}
+		}
 		switch n.Tag {
 		case "":
 			if n.X != "" {
